@@ -127,8 +127,12 @@ def cmd_run(ids, tier, all_checks, extra):
         d = os.path.join(SEEDED, mid)
         rc, out = sh(["git", "apply", os.path.join(d, "patch.diff")], cwd=REPO)
         if rc != 0:
-            print(mid, "does not apply to /repo:", out[-200:])
-            continue
+            # /repo has moved on since the change was written (later fix: commits): same hunk, shifted context
+            rc, out2 = sh("patch -p1 --fuzz=3 --no-backup-if-mismatch -r - < %s" % os.path.join(d, "patch.diff"), cwd=REPO)
+            if rc != 0:
+                sh("git checkout -- .", cwd=REPO)
+                print(mid, "does not apply to /repo:", out[-200:])
+                continue
         res = {"checks": {}}
         try:
             targets = [pid] + [x for x in extra if x != pid]
